@@ -1,234 +1,920 @@
-// extract-c09 reads the btcwallet sources (go/ast, no type checking) and
-// prints, as one JSON object, the table of wallet functions that issue
-// chained addresses inside a database write transaction, with for each one
-// whether w.newAddrMtx is held around the whole walletdb.Update call.
+// extract-c09 reads the WHOLE btcwallet repository (every package, found by
+// walking the tree; go/ast + go/types) and prints, as one JSON object, the
+// table of database write transactions that can advance an account's address
+// counters, with for each one whether a wallet-level mutex is held over the
+// whole transaction (commit and commit handlers included).
 //
 //	usage: extract-c09 <repo>
 //
-// Everything here is syntactic.  The program refuses (exit status 2, message
-// on stderr) every shape it does not understand instead of guessing.
+// Nothing is looked up by function or field NAME except the two anchors named
+// in the property: package waddrmgr's type ScopedKeyManager and the uint32
+// "next ... index" fields of its in-memory account record.  Everything else is
+// found by type and call graph:
+//
+//   - counter primitives: exported methods of *ScopedKeyManager from which an
+//     assignment to one of those fields is reachable (inside a closure
+//     registered with OnCommit = deferred, or directly = eager).  Those that
+//     return managed addresses ISSUE (Next*Addresses), the others EXTEND
+//     (Extend*Addresses: recovery);
+//   - transaction runners: walletdb.Update / walletdb.Batch / DB.Update /
+//     DB.Batch (anything declared in package walletdb taking a
+//     func(walletdb.ReadWriteTx) error) and every repository function that
+//     passes such a parameter on to a runner (helpers wrapping Update);
+//   - sites: every call of a runner, in any package, whose transaction
+//     function (literal, declared function, or local variable holding a
+//     literal) can reach a primitive through the call graph (closures are part
+//     of the function that creates them; a reference to a function counts as
+//     a call; an interface method call goes to every repository method of that
+//     name);
+//   - mutexes: any value of type sync.Mutex / sync.RWMutex (or pointer) that is
+//     a struct FIELD; Lock/Unlock = exclusive, RLock/RUnlock = shared.  The
+//     address mutex is the field locked (in either mode) around most sites.
+//
+// The lock must be taken before the statement containing the runner call and
+// released after it (deferred, or a later statement of the same block): then
+// it spans Begin .. Commit .. commit handlers.  The analysis is applied to
+// the site itself, to the runner helper(s) the transaction function is passed
+// through, and to every caller of the site's function (transitively, while the
+// function itself does not touch the mutex).  A site where no function on any
+// path to the transaction takes the mutex gets held = false; shapes that are
+// not understood give held = null with the reason (the caller of this program
+// then determines the flag by running the code).
 package main
 
 import (
 	"encoding/json"
 	"fmt"
 	"go/ast"
+	"go/build"
+	"go/importer"
 	"go/parser"
 	"go/token"
+	"go/types"
 	"os"
 	"path/filepath"
 	"sort"
 	"strings"
 )
 
-const mutexField = "newAddrMtx"
-
-type site struct {
-	Name   string   `json:"name"`
-	File   string   `json:"file"`
-	Held   *bool    `json:"held"` // null: locking shape of this site not understood (Why says what)
-	Why    string   `json:"why"`
-	Via    []string `json:"via"`    // what it reaches inside the transaction
-	Unlock string   `json:"unlock"` // "defer" | "after" | ""
-}
-
-type result struct {
-	Primitives   []string `json:"primitives"` // exported waddrmgr methods reaching nextAddresses
-	Deferred     bool     `json:"deferred"`   // nextAddresses updates the in-memory index only in tx.OnCommit
-	DeferredWhy  string   `json:"deferred_why"`
-	Helpers      []string `json:"helpers"` // wallet functions issuing on the caller's transaction
-	Sites        []site   `json:"sites"`
-	OtherWriters []string `json:"other_index_writers"` // wallet functions calling Extend*Addresses (eager update, not in the table)
-}
-
 func die(format string, a ...interface{}) {
 	fmt.Fprintf(os.Stderr, "extract-c09: "+format+"\n", a...)
 	os.Exit(2)
 }
 
-func parseDir(fset *token.FileSet, dir string) []*ast.File {
-	pkgs, err := parser.ParseDir(fset, dir, func(fi os.FileInfo) bool {
-		return !strings.HasSuffix(fi.Name(), "_test.go")
-	}, parser.ParseComments)
-	if err != nil {
-		die("parse %s: %v", dir, err)
-	}
-	var files []*ast.File
-	var names []string
-	for n := range pkgs {
-		names = append(names, n)
-	}
-	sort.Strings(names)
-	for _, n := range names {
-		if strings.HasSuffix(n, "_test") {
-			continue
-		}
-		var fn []string
-		for f := range pkgs[n].Files {
-			fn = append(fn, f)
-		}
-		sort.Strings(fn)
-		for _, f := range fn {
-			files = append(files, pkgs[n].Files[f])
-		}
-	}
-	if len(files) == 0 {
-		die("no Go files in %s", dir)
-	}
-	return files
+// ---------------------------------------------------------------- output
+
+type site struct {
+	Name    string   `json:"name"`  // "<pkg>.(*Recv).Func" as the Go runtime prints it, relative to the module
+	Pkg     string   `json:"pkg"`   // package directory relative to the module
+	File    string   `json:"file"`  // file relative to the repository
+	Line    int      `json:"line"`  // of the runner call
+	Class   string   `json:"class"` // issue | extend
+	Via     []string `json:"via"`   // primitives reachable from the transaction function
+	Runner  string   `json:"runner"`
+	Mutex   string   `json:"mutex"`  // the address mutex ("" if none was identified)
+	Held    *bool    `json:"held"`   // exclusive lock spans the whole transaction; null = shape not understood
+	Shared  bool     `json:"shared"` // only a read lock spans it
+	Why     string   `json:"why"`
+	Frames  []string `json:"frames"` // where the decision was taken
+	Touches bool     `json:"touches"`
 }
 
-// calleeName returns the bare name of the called function or method.
-func calleeName(c *ast.CallExpr) string {
-	switch f := c.Fun.(type) {
-	case *ast.Ident:
-		return f.Name
-	case *ast.SelectorExpr:
-		return f.Sel.Name
+type result struct {
+	Module        string   `json:"module"`
+	Packages      []string `json:"packages"` // every package directory that was read
+	Issue         []string `json:"issue_primitives"`
+	Extend        []string `json:"extend_primitives"`
+	Account       []string `json:"account_primitives"` // New*Account*: informational
+	Deferred      bool     `json:"deferred"`           // every issuing primitive assigns the counters only in OnCommit handlers
+	DeferredWhy   string   `json:"deferred_why"`
+	CounterFields []string `json:"counter_fields"`
+	Mutex         string   `json:"mutex"` // the address mutex: "<pkg>.<Type>.<field> (<sync type>)"
+	MutexType     string   `json:"mutex_type"`
+	Sites         []site   `json:"sites"`
+	AccountSites  []string `json:"account_sites"` // transactions creating accounts (informational)
+	OpenHelpers   []string `json:"open_helpers"`  // exported functions that issue/extend on a transaction supplied by their caller
+	TypeErrors    int      `json:"type_errors"`   // go/types errors ignored (imports outside the repository are stand-ins)
+}
+
+// ---------------------------------------------------------------- loading
+
+type pkg struct {
+	path, rel, dir string
+	files          []*ast.File
+	tp             *types.Package
+	info           *types.Info
+}
+
+type loader struct {
+	repo, mod string
+	fset      *token.FileSet
+	dirs      map[string]string // import path -> directory
+	pkgs      map[string]*pkg
+	loading   map[string]bool
+	std       types.Importer
+	fake      map[string]*types.Package
+	nerr      int
+}
+
+func (l *loader) Import(path string) (*types.Package, error) {
+	if path == "unsafe" {
+		return types.Unsafe, nil
 	}
+	if _, ok := l.dirs[path]; ok {
+		p := l.load(path)
+		if p == nil || p.tp == nil {
+			return l.fakePkg(path), nil
+		}
+		return p.tp, nil
+	}
+	first := path
+	if i := strings.IndexByte(path, '/'); i >= 0 {
+		first = path[:i]
+	}
+	if !strings.Contains(first, ".") {
+		if p, err := l.std.Import(path); err == nil && p != nil {
+			return p, nil
+		}
+	}
+	return l.fakePkg(path), nil
+}
+
+func (l *loader) fakePkg(path string) *types.Package {
+	if p, ok := l.fake[path]; ok {
+		return p
+	}
+	name := path[strings.LastIndex(path, "/")+1:]
+	if len(name) >= 2 && name[0] == 'v' && name[1] >= '0' && name[1] <= '9' {
+		rest := path[:strings.LastIndex(path, "/")]
+		name = rest[strings.LastIndex(rest, "/")+1:]
+	}
+	name = strings.ReplaceAll(name, "-", "_")
+	name = strings.TrimPrefix(name, "go_")
+	p := types.NewPackage(path, name)
+	p.MarkComplete()
+	l.fake[path] = p
+	return p
+}
+
+func (l *loader) load(path string) *pkg {
+	if p, ok := l.pkgs[path]; ok {
+		return p
+	}
+	if l.loading[path] {
+		return nil // import cycle (cannot happen in code that builds)
+	}
+	l.loading[path] = true
+	defer delete(l.loading, path)
+	dir := l.dirs[path]
+	ctxt := build.Default
+	ctxt.CgoEnabled = false
+	ents, err := os.ReadDir(dir)
+	if err != nil {
+		die("read %s: %v", dir, err)
+	}
+	byName := map[string][]*ast.File{}
+	for _, e := range ents {
+		n := e.Name()
+		if e.IsDir() || !strings.HasSuffix(n, ".go") || strings.HasSuffix(n, "_test.go") {
+			continue
+		}
+		if ok, err := ctxt.MatchFile(dir, n); err != nil || !ok {
+			continue
+		}
+		f, err := parser.ParseFile(l.fset, filepath.Join(dir, n), nil, parser.ParseComments)
+		if err != nil {
+			die("parse %s: %v", filepath.Join(dir, n), err)
+		}
+		byName[f.Name.Name] = append(byName[f.Name.Name], f)
+	}
+	var name string
+	for n, fs := range byName {
+		if name == "" || len(fs) > len(byName[name]) || (len(fs) == len(byName[name]) && n < name) {
+			name = n
+		}
+	}
+	p := &pkg{path: path, dir: dir, files: byName[name]}
+	p.rel = strings.TrimPrefix(strings.TrimPrefix(path, l.mod), "/")
+	if p.rel == "" {
+		p.rel = name
+	}
+	p.info = &types.Info{
+		Types:      map[ast.Expr]types.TypeAndValue{},
+		Defs:       map[*ast.Ident]types.Object{},
+		Uses:       map[*ast.Ident]types.Object{},
+		Selections: map[*ast.SelectorExpr]*types.Selection{},
+	}
+	conf := types.Config{Importer: l, Error: func(error) { l.nerr++ }, FakeImportC: true, DisableUnusedImportCheck: true}
+	p.tp, _ = conf.Check(path, l.fset, p.files, p.info)
+	l.pkgs[path] = p
+	return p
+}
+
+func modulePath(gomod string) string {
+	b, err := os.ReadFile(gomod)
+	if err != nil {
+		die("%v", err)
+	}
+	for _, line := range strings.Split(string(b), "\n") {
+		f := strings.Fields(line)
+		if len(f) >= 2 && f[0] == "module" {
+			return strings.Trim(f[1], `"`)
+		}
+	}
+	die("no module line in %s", gomod)
 	return ""
 }
 
-func funcDecls(files []*ast.File) map[string][]*ast.FuncDecl {
-	m := map[string][]*ast.FuncDecl{}
-	for _, f := range files {
-		for _, d := range f.Decls {
-			if fd, ok := d.(*ast.FuncDecl); ok && fd.Body != nil {
-				m[fd.Name.Name] = append(m[fd.Name.Name], fd)
+func loadRepo(repo string) *loader {
+	l := &loader{repo: repo, fset: token.NewFileSet(), dirs: map[string]string{}, pkgs: map[string]*pkg{},
+		loading: map[string]bool{}, fake: map[string]*types.Package{}}
+	l.mod = modulePath(filepath.Join(repo, "go.mod"))
+	l.std = importer.ForCompiler(l.fset, "source", nil)
+	err := filepath.Walk(repo, func(p string, fi os.FileInfo, err error) error {
+		if err != nil {
+			return err
+		}
+		if fi.IsDir() {
+			b := fi.Name()
+			if p != repo && (strings.HasPrefix(b, ".") || strings.HasPrefix(b, "_") || b == "testdata" || b == "vendor") {
+				return filepath.SkipDir
+			}
+			return nil
+		}
+		if strings.HasSuffix(p, ".go") && !strings.HasSuffix(p, "_test.go") {
+			dir := filepath.Dir(p)
+			rel, _ := filepath.Rel(repo, dir)
+			ip := l.mod
+			if rel != "." {
+				ip = l.mod + "/" + filepath.ToSlash(rel)
+			}
+			l.dirs[ip] = dir
+		}
+		return nil
+	})
+	if err != nil {
+		die("walk %s: %v", repo, err)
+	}
+	var paths []string
+	for ip := range l.dirs {
+		paths = append(paths, ip)
+	}
+	sort.Strings(paths)
+	for _, ip := range paths {
+		l.load(ip)
+	}
+	return l
+}
+
+// ---------------------------------------------------------------- functions
+
+// fn is a declared function or method of the repository.
+type fn struct {
+	obj  *types.Func
+	decl *ast.FuncDecl
+	p    *pkg
+	name string // runtime-style name relative to the module
+}
+
+type world struct {
+	l      *loader
+	fns    map[*types.Func]*fn
+	byName map[string][]*fn // method/function bare name -> declarations (interface dispatch)
+	order  []*fn
+
+	wdb      string // import path of walletdb
+	mgrPkg   *pkg
+	mgrType  *types.Named
+	counters map[*types.Var]bool
+
+	refs    map[*fn][]*fn // functions referenced (called or taken as a value) anywhere in the body
+	callers map[*fn][]callRef
+
+	fieldOf map[string]*types.Var // mutex identity -> the struct field
+}
+
+type callRef struct {
+	from *fn
+	call *ast.CallExpr // nil: referenced as a value
+}
+
+func runtimeName(l *loader, p *pkg, fd *ast.FuncDecl) string {
+	n := p.rel + "."
+	if fd.Recv != nil && len(fd.Recv.List) == 1 {
+		t := fd.Recv.List[0].Type
+		ptr := false
+		if s, ok := t.(*ast.StarExpr); ok {
+			ptr, t = true, s.X
+		}
+		if ix, ok := t.(*ast.IndexExpr); ok {
+			t = ix.X
+		}
+		if ix, ok := t.(*ast.IndexListExpr); ok {
+			t = ix.X
+		}
+		if id, ok := t.(*ast.Ident); ok {
+			if ptr {
+				n += "(*" + id.Name + ")."
+			} else {
+				n += id.Name + "."
 			}
 		}
 	}
-	return m
+	return n + fd.Name.Name
 }
 
-// reaches computes the set of declared function names whose body contains
-// (at any depth, closures included) a call to a name in seed or to another
-// member of the set.
-func reaches(decls map[string][]*ast.FuncDecl, seed map[string]bool, seedIsDeclared bool) map[string]bool {
-	set := map[string]bool{}
-	for changed := true; changed; {
-		changed = false
-		for name, fds := range decls {
-			if set[name] {
-				continue
+func buildWorld(l *loader) *world {
+	w := &world{l: l, fns: map[*types.Func]*fn{}, byName: map[string][]*fn{}, refs: map[*fn][]*fn{},
+		callers: map[*fn][]callRef{}, counters: map[*types.Var]bool{}, fieldOf: map[string]*types.Var{}}
+	var paths []string
+	for ip := range l.pkgs {
+		paths = append(paths, ip)
+	}
+	sort.Strings(paths)
+	for _, ip := range paths {
+		p := l.pkgs[ip]
+		for _, f := range p.files {
+			for _, d := range f.Decls {
+				fd, ok := d.(*ast.FuncDecl)
+				if !ok || fd.Body == nil {
+					continue
+				}
+				obj, _ := p.info.Defs[fd.Name].(*types.Func)
+				if obj == nil {
+					continue
+				}
+				x := &fn{obj: obj, decl: fd, p: p, name: runtimeName(l, p, fd)}
+				w.fns[obj] = x
+				w.byName[fd.Name.Name] = append(w.byName[fd.Name.Name], x)
+				w.order = append(w.order, x)
 			}
-			for _, fd := range fds {
-				hit := false
-				ast.Inspect(fd.Body, func(n ast.Node) bool {
-					if c, ok := n.(*ast.CallExpr); ok {
-						cn := calleeName(c)
-						if seed[cn] || set[cn] {
-							hit = true
+		}
+	}
+	for _, x := range w.order {
+		seen := map[*fn]bool{}
+		ast.Inspect(x.decl.Body, func(n ast.Node) bool {
+			switch e := n.(type) {
+			case *ast.CallExpr:
+				for _, t := range w.targets(x.p, e.Fun) {
+					w.callers[t] = append(w.callers[t], callRef{x, e})
+					if !seen[t] {
+						seen[t] = true
+						w.refs[x] = append(w.refs[x], t)
+					}
+				}
+			}
+			return true
+		})
+		// references that are not calls (method values, function values)
+		called := map[ast.Expr]bool{}
+		ast.Inspect(x.decl.Body, func(n ast.Node) bool {
+			if c, ok := n.(*ast.CallExpr); ok {
+				called[ast.Unparen(c.Fun)] = true
+			}
+			return true
+		})
+		var skip map[*ast.Ident]bool = map[*ast.Ident]bool{}
+		ast.Inspect(x.decl.Body, func(n ast.Node) bool {
+			switch e := n.(type) {
+			case *ast.SelectorExpr:
+				skip[e.Sel] = true
+				if called[e] {
+					return true
+				}
+				for _, t := range w.targets(x.p, e) {
+					w.callers[t] = append(w.callers[t], callRef{x, nil})
+					if !seen[t] {
+						seen[t] = true
+						w.refs[x] = append(w.refs[x], t)
+					}
+				}
+			case *ast.Ident:
+				if skip[e] || called[e] {
+					return true
+				}
+				if f, ok := x.p.info.Uses[e].(*types.Func); ok {
+					if t := w.fns[f]; t != nil {
+						w.callers[t] = append(w.callers[t], callRef{x, nil})
+						if !seen[t] {
+							seen[t] = true
+							w.refs[x] = append(w.refs[x], t)
 						}
 					}
-					return !hit
-				})
-				if hit {
-					set[name] = true
-					changed = true
+				}
+			}
+			return true
+		})
+	}
+	return w
+}
+
+// targets resolves the function expression of a call (or a function-valued
+// expression) to repository declarations.
+func (w *world) targets(p *pkg, e ast.Expr) []*fn {
+	e = ast.Unparen(e)
+	var obj types.Object
+	switch x := e.(type) {
+	case *ast.Ident:
+		obj = p.info.Uses[x]
+	case *ast.SelectorExpr:
+		if sel := p.info.Selections[x]; sel != nil {
+			obj = sel.Obj()
+		} else {
+			obj = p.info.Uses[x.Sel]
+		}
+	case *ast.IndexExpr:
+		return w.targets(p, x.X)
+	case *ast.IndexListExpr:
+		return w.targets(p, x.X)
+	}
+	f, ok := obj.(*types.Func)
+	if !ok {
+		return nil
+	}
+	if o := f.Origin(); o != nil {
+		f = o
+	}
+	if t := w.fns[f]; t != nil {
+		return []*fn{t}
+	}
+	// interface method: every repository method of that name
+	if sig, ok := f.Type().(*types.Signature); ok && sig.Recv() != nil {
+		if _, isIface := sig.Recv().Type().Underlying().(*types.Interface); isIface {
+			var out []*fn
+			for _, t := range w.byName[f.Name()] {
+				if t.decl.Recv != nil {
+					out = append(out, t)
+				}
+			}
+			return out
+		}
+	}
+	return nil
+}
+
+// reach: declarations reachable from the given roots through refs.
+func (w *world) reach(roots []*fn) map[*fn]bool {
+	seen := map[*fn]bool{}
+	var visit func(x *fn)
+	visit = func(x *fn) {
+		if seen[x] {
+			return
+		}
+		seen[x] = true
+		for _, y := range w.refs[x] {
+			visit(y)
+		}
+	}
+	for _, r := range roots {
+		visit(r)
+	}
+	return seen
+}
+
+// refsIn: declarations referenced inside node n (a closure body, an expression).
+func (w *world) refsIn(p *pkg, n ast.Node) []*fn {
+	seen := map[*fn]bool{}
+	var out []*fn
+	ast.Inspect(n, func(m ast.Node) bool {
+		var ts []*fn
+		switch e := m.(type) {
+		case *ast.CallExpr:
+			ts = w.targets(p, e.Fun)
+		case *ast.SelectorExpr:
+			ts = w.targets(p, e)
+		case *ast.Ident:
+			if f, ok := p.info.Uses[e].(*types.Func); ok {
+				if t := w.fns[f]; t != nil {
+					ts = []*fn{t}
 				}
 			}
 		}
-	}
-	return set
-}
-
-// isMutexCall recognises  <expr>.newAddrMtx.<method>()
-func isMutexCall(e ast.Expr, method string) bool {
-	c, ok := e.(*ast.CallExpr)
-	if !ok || len(c.Args) != 0 {
-		return false
-	}
-	s, ok := c.Fun.(*ast.SelectorExpr)
-	if !ok || s.Sel.Name != method {
-		return false
-	}
-	s2, ok := s.X.(*ast.SelectorExpr)
-	return ok && s2.Sel.Name == mutexField
-}
-
-func containsMutexCall(n ast.Node, method string, intoFuncLits bool) bool {
-	found := false
-	ast.Inspect(n, func(m ast.Node) bool {
-		if found {
-			return false
-		}
-		if _, ok := m.(*ast.FuncLit); ok && !intoFuncLits {
-			return false
-		}
-		if e, ok := m.(ast.Expr); ok && isMutexCall(e, method) {
-			found = true
-		}
-		return !found
-	})
-	return found
-}
-
-// containsJump: return/goto/break/continue/panic outside closures.
-func containsJump(n ast.Node) bool {
-	found := false
-	ast.Inspect(n, func(m ast.Node) bool {
-		if found {
-			return false
-		}
-		switch x := m.(type) {
-		case *ast.FuncLit:
-			return false
-		case *ast.ReturnStmt, *ast.BranchStmt:
-			found = true
-		case *ast.CallExpr:
-			if id, ok := x.Fun.(*ast.Ident); ok && id.Name == "panic" {
-				found = true
+		for _, t := range ts {
+			if !seen[t] {
+				seen[t] = true
+				out = append(out, t)
 			}
 		}
-		return !found
+		return true
 	})
-	return found
+	return out
 }
 
-// updateClosure: if c is walletdb.Update(db, func..) / walletdb.Batch(db, func..)
-// / <x>.Update(func.., reset) / <x>.Batch(func..) it returns the closure.
-func updateClosure(c *ast.CallExpr) (*ast.FuncLit, string) {
-	s, ok := c.Fun.(*ast.SelectorExpr)
+// ---------------------------------------------------------------- primitives
+
+func (w *world) findManager() {
+	for ip, p := range w.l.pkgs {
+		if ip == w.l.mod+"/waddrmgr" {
+			w.mgrPkg = p
+		}
+	}
+	if w.mgrPkg == nil || w.mgrPkg.tp == nil {
+		die("package %s/waddrmgr not found", w.l.mod)
+	}
+	obj := w.mgrPkg.tp.Scope().Lookup("ScopedKeyManager")
+	tn, ok := obj.(*types.TypeName)
 	if !ok {
-		return nil, ""
+		die("waddrmgr.ScopedKeyManager not found; the model of C09 does not apply")
 	}
-	if s.Sel.Name != "Update" && s.Sel.Name != "Batch" {
-		return nil, ""
+	w.mgrType, _ = tn.Type().(*types.Named)
+	st, ok := tn.Type().Underlying().(*types.Struct)
+	if !ok {
+		die("waddrmgr.ScopedKeyManager is not a struct")
 	}
-	if id, ok := s.X.(*ast.Ident); ok && id.Name == "walletdb" {
-		if len(c.Args) == 2 {
-			if fl, ok := c.Args[1].(*ast.FuncLit); ok {
-				return fl, "walletdb." + s.Sel.Name
+	// the in-memory account record: the element type of a map field of the
+	// manager that is a pointer to a struct with uint32 "next...Index" fields
+	for i := 0; i < st.NumFields(); i++ {
+		m, ok := st.Field(i).Type().Underlying().(*types.Map)
+		if !ok {
+			continue
+		}
+		el := m.Elem()
+		if pt, ok := el.(*types.Pointer); ok {
+			el = pt.Elem()
+		}
+		rec, ok := el.Underlying().(*types.Struct)
+		if !ok {
+			continue
+		}
+		for j := 0; j < rec.NumFields(); j++ {
+			f := rec.Field(j)
+			b, isBasic := f.Type().Underlying().(*types.Basic)
+			ln := strings.ToLower(f.Name())
+			if isBasic && b.Kind() == types.Uint32 && strings.Contains(ln, "next") && strings.Contains(ln, "index") {
+				w.counters[f] = true
 			}
-			return nil, "walletdb." + s.Sel.Name + " with a non-literal closure"
-		}
-		return nil, "walletdb." + s.Sel.Name + " with unexpected arguments"
-	}
-	if len(c.Args) >= 1 {
-		if fl, ok := c.Args[0].(*ast.FuncLit); ok {
-			return fl, "db." + s.Sel.Name
 		}
 	}
-	return nil, ""
+	if len(w.counters) == 0 {
+		die("no uint32 next-index field found in the account record of waddrmgr.ScopedKeyManager; the model of C09 does not apply")
+	}
 }
 
-func isViewCall(c *ast.CallExpr) bool {
-	s, ok := c.Fun.(*ast.SelectorExpr)
-	return ok && s.Sel.Name == "View"
+// counterWrites scans a function body: does it assign a counter field
+// directly (eager) / inside a closure registered with OnCommit (deferred), and
+// which declarations does it reference in either context.
+type bodyFacts struct {
+	eagerWrite, deferredWrite bool
+	eagerRefs, deferredRefs   []*fn
 }
 
-func hasTxParam(fd *ast.FuncDecl) bool {
-	for _, p := range fd.Type.Params.List {
-		if s, ok := p.Type.(*ast.SelectorExpr); ok {
-			if id, ok := s.X.(*ast.Ident); ok && id.Name == "walletdb" &&
-				(s.Sel.Name == "ReadWriteTx" || s.Sel.Name == "ReadWriteBucket") {
+func (w *world) bodyFacts(x *fn) bodyFacts {
+	var bf bodyFacts
+	p := x.p
+	// closures registered with OnCommit, directly or through a local variable
+	vars := map[types.Object]*ast.FuncLit{}
+	ast.Inspect(x.decl.Body, func(n ast.Node) bool {
+		if as, ok := n.(*ast.AssignStmt); ok && len(as.Lhs) == len(as.Rhs) {
+			for i := range as.Lhs {
+				if id, ok := as.Lhs[i].(*ast.Ident); ok {
+					if fl, ok := as.Rhs[i].(*ast.FuncLit); ok {
+						if o := p.info.Defs[id]; o != nil {
+							vars[o] = fl
+						} else if o := p.info.Uses[id]; o != nil {
+							vars[o] = fl
+						}
+					}
+				}
+			}
+		}
+		return true
+	})
+	registered := map[*ast.FuncLit]bool{}
+	ast.Inspect(x.decl.Body, func(n ast.Node) bool {
+		c, ok := n.(*ast.CallExpr)
+		if !ok || len(c.Args) != 1 {
+			return true
+		}
+		s, ok := c.Fun.(*ast.SelectorExpr)
+		if !ok || s.Sel.Name != "OnCommit" {
+			return true
+		}
+		switch a := c.Args[0].(type) {
+		case *ast.FuncLit:
+			registered[a] = true
+		case *ast.Ident:
+			if fl := vars[p.info.Uses[a]]; fl != nil {
+				registered[fl] = true
+			}
+		}
+		return true
+	})
+	isCounter := func(e ast.Expr) bool {
+		s, ok := ast.Unparen(e).(*ast.SelectorExpr)
+		if !ok {
+			return false
+		}
+		if sel := p.info.Selections[s]; sel != nil {
+			if v, ok := sel.Obj().(*types.Var); ok {
+				return w.counters[v]
+			}
+		}
+		return false
+	}
+	var visit func(n ast.Node, deferred bool)
+	visit = func(n ast.Node, deferred bool) {
+		ast.Inspect(n, func(m ast.Node) bool {
+			if m == nil || m == n {
 				return true
 			}
+			if fl, ok := m.(*ast.FuncLit); ok {
+				visit(fl.Body, deferred || registered[fl])
+				return false
+			}
+			wr := false
+			switch s := m.(type) {
+			case *ast.AssignStmt:
+				for _, lh := range s.Lhs {
+					wr = wr || isCounter(lh)
+				}
+			case *ast.IncDecStmt:
+				wr = isCounter(s.X)
+			case *ast.UnaryExpr:
+				if s.Op == token.AND && isCounter(s.X) {
+					wr = true // address taken: may be written through the pointer
+				}
+			}
+			if wr {
+				if deferred {
+					bf.deferredWrite = true
+				} else {
+					bf.eagerWrite = true
+				}
+			}
+			var ts []*fn
+			switch e := m.(type) {
+			case *ast.CallExpr:
+				ts = w.targets(p, e.Fun)
+			case *ast.SelectorExpr:
+				ts = w.targets(p, e)
+			case *ast.Ident:
+				if f, ok := p.info.Uses[e].(*types.Func); ok {
+					if t := w.fns[f]; t != nil {
+						ts = []*fn{t}
+					}
+				}
+			}
+			for _, t := range ts {
+				if deferred {
+					bf.deferredRefs = append(bf.deferredRefs, t)
+				} else {
+					bf.eagerRefs = append(bf.eagerRefs, t)
+				}
+			}
+			return true
+		})
+	}
+	visit(x.decl.Body, false)
+	return bf
+}
+
+type prim struct {
+	f               *fn
+	eager, deferred bool
+	returnsAddrs    bool
+}
+
+func (w *world) primitives() (map[*fn]*prim, []string) {
+	facts := map[*fn]bodyFacts{}
+	for _, x := range w.order {
+		if x.p == w.mgrPkg {
+			facts[x] = w.bodyFacts(x)
 		}
 	}
-	return false
+	eager := map[*fn]bool{}    // may assign a counter when called
+	deferred := map[*fn]bool{} // may register a handler that assigns a counter
+	for changed := true; changed; {
+		changed = false
+		for x, bf := range facts {
+			e, d := bf.eagerWrite, bf.deferredWrite
+			for _, t := range bf.eagerRefs {
+				e = e || eager[t]
+				d = d || deferred[t]
+			}
+			for _, t := range bf.deferredRefs {
+				// inside a commit handler everything runs at commit time
+				d = d || eager[t] || deferred[t]
+			}
+			if e && !eager[x] {
+				eager[x], changed = true, true
+			}
+			if d && !deferred[x] {
+				deferred[x], changed = true, true
+			}
+		}
+	}
+	var fields []string
+	for v := range w.counters {
+		fields = append(fields, v.Name())
+	}
+	sort.Strings(fields)
+	out := map[*fn]*prim{}
+	for _, x := range w.order {
+		if x.p != w.mgrPkg || !ast.IsExported(x.decl.Name.Name) || x.decl.Recv == nil || !(eager[x] || deferred[x]) {
+			continue
+		}
+		sig := x.obj.Type().(*types.Signature)
+		rt := sig.Recv().Type()
+		if pt, ok := rt.(*types.Pointer); ok {
+			rt = pt.Elem()
+		}
+		if nt, ok := rt.(*types.Named); !ok || nt.Obj() != w.mgrType.Obj() {
+			continue
+		}
+		pr := &prim{f: x, eager: eager[x], deferred: deferred[x]}
+		for i := 0; i < sig.Results().Len(); i++ {
+			t := sig.Results().At(i).Type()
+			if sl, ok := t.(*types.Slice); ok {
+				t = sl.Elem()
+			}
+			if nt, ok := t.(*types.Named); ok && nt.Obj().Pkg() == w.mgrPkg.tp && strings.Contains(nt.Obj().Name(), "Address") {
+				pr.returnsAddrs = true
+			}
+		}
+		out[x] = pr
+	}
+	return out, fields
 }
+
+// ---------------------------------------------------------------- runners
+
+// txFuncParam: index of the parameter of type func(walletdb.ReadWriteTx) ..., or -1.
+func (w *world) txFuncParam(sig *types.Signature) int {
+	for i := 0; i < sig.Params().Len(); i++ {
+		ft, ok := sig.Params().At(i).Type().Underlying().(*types.Signature)
+		if !ok || ft.Params().Len() < 1 {
+			continue
+		}
+		if nt, ok := ft.Params().At(0).Type().(*types.Named); ok && nt.Obj().Pkg() != nil &&
+			nt.Obj().Pkg().Path() == w.wdb && nt.Obj().Name() == "ReadWriteTx" {
+			return i
+		}
+	}
+	return -1
+}
+
+// runnerArg: if call c (in package p) runs a write transaction, the index of
+// its transaction-function argument and a printable runner name; else -1.
+func (w *world) runnerArg(p *pkg, c *ast.CallExpr, helpers map[*fn]int) (int, string) {
+	e := ast.Unparen(c.Fun)
+	var obj types.Object
+	switch x := e.(type) {
+	case *ast.Ident:
+		obj = p.info.Uses[x]
+	case *ast.SelectorExpr:
+		if sel := p.info.Selections[x]; sel != nil {
+			obj = sel.Obj()
+		} else {
+			obj = p.info.Uses[x.Sel]
+		}
+	}
+	f, ok := obj.(*types.Func)
+	if !ok {
+		return -1, ""
+	}
+	if t := w.fns[f]; t != nil {
+		if i, ok := helpers[t]; ok {
+			return i, t.name
+		}
+	}
+	if f.Pkg() != nil && f.Pkg().Path() == w.wdb {
+		sig := f.Type().(*types.Signature)
+		if i := w.txFuncParam(sig); i >= 0 && i < len(c.Args) {
+			return i, "walletdb." + f.Name()
+		}
+	}
+	return -1, ""
+}
+
+// helpers: repository functions outside walletdb that take a transaction
+// function and pass it on to a runner.
+func (w *world) runnerHelpers() map[*fn]int {
+	helpers := map[*fn]int{}
+	for changed := true; changed; {
+		changed = false
+		for _, x := range w.order {
+			if _, ok := helpers[x]; ok || strings.HasPrefix(x.p.path, w.wdb) {
+				continue
+			}
+			sig := x.obj.Type().(*types.Signature)
+			pi := w.txFuncParam(sig)
+			if pi < 0 {
+				continue
+			}
+			param := sig.Params().At(pi)
+			passes := false
+			ast.Inspect(x.decl.Body, func(n ast.Node) bool {
+				c, ok := n.(*ast.CallExpr)
+				if !ok {
+					return true
+				}
+				ai, _ := w.runnerArg(x.p, c, helpers)
+				if ai < 0 || ai >= len(c.Args) {
+					return true
+				}
+				ast.Inspect(c.Args[ai], func(m ast.Node) bool {
+					if id, ok := m.(*ast.Ident); ok && x.p.info.Uses[id] == param {
+						passes = true
+					}
+					return true
+				})
+				return true
+			})
+			if passes {
+				helpers[x] = pi
+				changed = true
+			}
+		}
+	}
+	return helpers
+}
+
+// ---------------------------------------------------------------- mutexes
+
+type lockKind int
+
+const (
+	kNone lockKind = iota
+	kLock
+	kUnlock
+	kRLock
+	kRUnlock
+)
+
+func isSyncMutex(t types.Type) (string, bool) {
+	if pt, ok := t.(*types.Pointer); ok {
+		t = pt.Elem()
+	}
+	nt, ok := t.(*types.Named)
+	if !ok || nt.Obj().Pkg() == nil || nt.Obj().Pkg().Path() != "sync" {
+		return "", false
+	}
+	if n := nt.Obj().Name(); n == "Mutex" || n == "RWMutex" {
+		return "sync." + n, true
+	}
+	return "", false
+}
+
+// mutexCall: is e  <x>.Lock() / Unlock() / RLock() / RUnlock()  on a sync
+// mutex; returns the kind and the identity of the mutex: the struct field
+// ("<pkg>.<Type>.<field>") or "local:<name>" for anything else.
+func (w *world) mutexCall(p *pkg, e ast.Expr) (lockKind, string, string) {
+	c, ok := ast.Unparen(e).(*ast.CallExpr)
+	if !ok || len(c.Args) != 0 {
+		return kNone, "", ""
+	}
+	s, ok := c.Fun.(*ast.SelectorExpr)
+	if !ok {
+		return kNone, "", ""
+	}
+	var k lockKind
+	switch s.Sel.Name {
+	case "Lock":
+		k = kLock
+	case "Unlock":
+		k = kUnlock
+	case "RLock":
+		k = kRLock
+	case "RUnlock":
+		k = kRUnlock
+	default:
+		return kNone, "", ""
+	}
+	tv, ok := p.info.Types[s.X]
+	if !ok {
+		return kNone, "", ""
+	}
+	mt, ok := isSyncMutex(tv.Type)
+	if !ok {
+		return kNone, "", ""
+	}
+	x := ast.Unparen(s.X)
+	if u, ok := x.(*ast.UnaryExpr); ok && u.Op == token.AND {
+		x = ast.Unparen(u.X)
+	}
+	if fs, ok := x.(*ast.SelectorExpr); ok {
+		if sel := p.info.Selections[fs]; sel != nil && sel.Kind() == types.FieldVal {
+			if v, ok := sel.Obj().(*types.Var); ok && v.IsField() {
+				recv := sel.Recv()
+				if pt, ok := recv.(*types.Pointer); ok {
+					recv = pt.Elem()
+				}
+				owner := "?"
+				if nt, ok := recv.(*types.Named); ok {
+					owner = nt.Obj().Name()
+					if nt.Obj().Pkg() != nil {
+						owner = strings.TrimPrefix(strings.TrimPrefix(nt.Obj().Pkg().Path(), w.l.mod), "/") + "." + owner
+					}
+				}
+				w.fieldOf[owner+"."+v.Name()] = v
+				return k, owner + "." + v.Name(), mt
+			}
+		}
+	}
+	return k, "local:" + types.ExprString(x), mt
+}
+
+// ---------------------------------------------------------------- lock shape
 
 // stmtLists returns the statement lists directly nested in statement s
 // (blocks of if/for/switch/select/case ...), not crossing closures.
@@ -267,9 +953,6 @@ type level struct {
 	idx  int
 }
 
-// pathTo finds the chain of (statement list, index) leading from list down
-// to the statement that directly contains target as an expression (without
-// crossing a closure on the way down through statements).
 func pathTo(list []ast.Stmt, target ast.Node) []level {
 	for i, s := range list {
 		if !(s.Pos() <= target.Pos() && target.End() <= s.End()) {
@@ -285,454 +968,163 @@ func pathTo(list []ast.Stmt, target ast.Node) []level {
 	return nil
 }
 
-// insideFuncLit reports whether target lies inside a closure within stmt s
-// other than the closure `except`.
-func crossesFuncLit(s ast.Node, target ast.Node, except *ast.FuncLit) bool {
-	crossed := false
-	ast.Inspect(s, func(n ast.Node) bool {
-		if fl, ok := n.(*ast.FuncLit); ok && fl != except {
-			if fl.Pos() <= target.Pos() && target.End() <= fl.End() {
-				crossed = true
-			}
+// containsJump: return/goto/break/continue/panic outside closures.
+func containsJump(n ast.Node) bool {
+	found := false
+	ast.Inspect(n, func(m ast.Node) bool {
+		if found {
+			return false
 		}
-		return !crossed
-	})
-	return crossed
-}
-
-func main() {
-	if len(os.Args) != 2 {
-		die("usage: extract-c09 <repo>")
-	}
-	repo := os.Args[1]
-	fset := token.NewFileSet()
-	res := result{}
-
-	// ---- waddrmgr: which exported methods hand out chained addresses through
-	// the in-memory next index, and is the in-memory update deferred?
-	mfiles := parseDir(fset, filepath.Join(repo, "waddrmgr"))
-	mdecls := funcDecls(mfiles)
-	na := mdecls["nextAddresses"]
-	if len(na) != 1 {
-		die("waddrmgr: expected exactly one nextAddresses, found %d", len(na))
-	}
-	reach := reaches(mdecls, map[string]bool{"nextAddresses": true}, true)
-	for name := range reach {
-		if ast.IsExported(name) {
-			res.Primitives = append(res.Primitives, name)
-		}
-	}
-	sort.Strings(res.Primitives)
-	want := map[string]bool{"NextExternalAddresses": false, "NextInternalAddresses": false}
-	for _, p := range res.Primitives {
-		if _, ok := want[p]; ok {
-			want[p] = true
-		}
-	}
-	for p, ok := range want {
-		if !ok {
-			die("waddrmgr: %s no longer reaches nextAddresses; the model of C09 does not apply", p)
-		}
-	}
-	res.Deferred, res.DeferredWhy = deferredUpdate(na[0])
-
-	// ---- wallet
-	wfiles := parseDir(fset, filepath.Join(repo, "wallet"))
-	wdecls := funcDecls(wfiles)
-	prim := map[string]bool{}
-	for _, p := range res.Primitives {
-		prim[p] = true
-		if _, clash := wdecls[p]; clash {
-			die("wallet declares a function named like the waddrmgr primitive %s; cannot tell them apart syntactically", p)
-		}
-	}
-	// helpers: functions that issue on a transaction they did not open (an
-	// issuing call outside every Update closure of their own body); their
-	// callers inherit the obligation.  A function whose issuing calls are all
-	// inside its own Update closures is a site and does not propagate.
-	issuers := map[string]bool{} // helpers
-	for changed := true; changed; {
-		changed = false
-		for name, fds := range wdecls {
-			if issuers[name] {
-				continue
-			}
-			for _, fd := range fds {
-				var closures []*ast.FuncLit
-				ast.Inspect(fd.Body, func(n ast.Node) bool {
-					if c, ok := n.(*ast.CallExpr); ok {
-						if fl, _ := updateClosure(c); fl != nil {
-							closures = append(closures, fl)
-						}
-					}
-					return true
-				})
-				ast.Inspect(fd.Body, func(n ast.Node) bool {
-					c, ok := n.(*ast.CallExpr)
-					if !ok {
-						return true
-					}
-					cn := calleeName(c)
-					if !(prim[cn] || issuers[cn]) {
-						return true
-					}
-					inside := false
-					for _, fl := range closures {
-						if fl.Pos() <= c.Pos() && c.End() <= fl.End() {
-							inside = true
-						}
-					}
-					if !inside && !issuers[name] {
-						issuers[name] = true
-						changed = true
-					}
-					return true
-				})
-			}
-		}
-	}
-	// relevant = helpers + functions with an issuing call inside an Update closure
-	relevant := map[string]bool{}
-	for name, fds := range wdecls {
-		for _, fd := range fds {
-			ast.Inspect(fd.Body, func(n ast.Node) bool {
-				if c, ok := n.(*ast.CallExpr); ok {
-					cn := calleeName(c)
-					if prim[cn] || issuers[cn] {
-						relevant[name] = true
-					}
-				}
-				return true
-			})
-		}
-	}
-	for name := range relevant {
-		if len(wdecls[name]) != 1 {
-			die("wallet: %d declarations named %s reach address issuance; cannot tell them apart syntactically", len(wdecls[name]), name)
-		}
-	}
-	for name := range issuers {
-		if len(wdecls[name]) != 1 {
-			die("wallet: %d declarations named %s; cannot tell them apart syntactically", len(wdecls[name]), name)
-		}
-	}
-	isIssue := func(c *ast.CallExpr) bool {
-		cn := calleeName(c)
-		return prim[cn] || issuers[cn]
-	}
-
-	// issuing functions must only be called, never taken as values
-	for _, f := range wfiles {
-		callFuns := map[ast.Expr]bool{}
-		declNames := map[*ast.Ident]bool{}
-		selSel := map[*ast.Ident]bool{}
-		ast.Inspect(f, func(n ast.Node) bool {
-			switch x := n.(type) {
-			case *ast.CallExpr:
-				callFuns[x.Fun] = true
-			case *ast.FuncDecl:
-				declNames[x.Name] = true
-			case *ast.SelectorExpr:
-				selSel[x.Sel] = true
-			}
-			return true
-		})
-		ast.Inspect(f, func(n ast.Node) bool {
-			switch x := n.(type) {
-			case *ast.SelectorExpr:
-				if (issuers[x.Sel.Name] || prim[x.Sel.Name]) && !callFuns[x] {
-					die("%s: %s is used as a value (method value); not understood",
-						fset.Position(x.Pos()), x.Sel.Name)
-				}
-			case *ast.Ident:
-				if (issuers[x.Name] || prim[x.Name]) && !declNames[x] && !selSel[x] && !callFuns[x] {
-					die("%s: identifier %s (an address-issuing function name) is used as a value; not understood",
-						fset.Position(x.Pos()), x.Name)
-				}
-			}
-			return true
-		})
-	}
-
-	var names []string
-	for n := range relevant {
-		names = append(names, n)
-	}
-	sort.Strings(names)
-	for _, name := range names {
-		fd := wdecls[name][0]
-		file := filepath.Base(fset.Position(fd.Pos()).Filename)
-		hasGoto := false
-		ast.Inspect(fd.Body, func(n ast.Node) bool {
-			if b, ok := n.(*ast.BranchStmt); ok && b.Tok == token.GOTO {
-				hasGoto = true
-			}
-			return true
-		})
-		if hasGoto {
-			die("%s: goto in an address-issuing function; control flow not understood", name)
-		}
-
-		// all issuing calls of this function
-		var points []*ast.CallExpr
-		ast.Inspect(fd.Body, func(n ast.Node) bool {
-			if c, ok := n.(*ast.CallExpr); ok && isIssue(c) {
-				points = append(points, c)
-			}
-			return true
-		})
-		// the Update calls of this function, with their closures
-		type upd struct {
-			call *ast.CallExpr
-			fl   *ast.FuncLit
-			via  map[string]bool
-		}
-		var upds []*upd
-		ast.Inspect(fd.Body, func(n ast.Node) bool {
-			if c, ok := n.(*ast.CallExpr); ok {
-				fl, kind := updateClosure(c)
-				if fl != nil {
-					upds = append(upds, &upd{c, fl, map[string]bool{}})
-				} else if strings.Contains(kind, "non-literal") || strings.Contains(kind, "unexpected") {
-					// only a problem if this function issues outside any closure we understand;
-					// detected below because the issuing call will not be inside an Update closure.
-					_ = kind
-				}
-				if s, ok := c.Fun.(*ast.SelectorExpr); ok &&
-					(s.Sel.Name == "BeginReadWriteTx") {
-					die("%s: %s opens a write transaction by hand (BeginReadWriteTx); Begin/Commit pairs are not understood",
-						fset.Position(c.Pos()), name)
-				}
-			}
-			return true
-		})
-		helper := false
-		for _, p := range points {
-			var in *upd
-			for _, u := range upds {
-				if u.fl.Pos() <= p.Pos() && p.End() <= u.fl.End() {
-					if in != nil {
-						die("%s: nested Update closures around an issuing call in %s", fset.Position(p.Pos()), name)
-					}
-					in = u
-				}
-			}
-			// inside a View closure?
-			ast.Inspect(fd.Body, func(n ast.Node) bool {
-				if c, ok := n.(*ast.CallExpr); ok && isViewCall(c) {
-					for _, a := range c.Args {
-						if fl, ok := a.(*ast.FuncLit); ok && fl.Pos() <= p.Pos() && p.End() <= fl.End() {
-							die("%s: address issuance inside a read transaction in %s; not understood",
-								fset.Position(p.Pos()), name)
-						}
-					}
-				}
-				return true
-			})
-			if in != nil {
-				in.via[calleeName(p)] = true
-				continue
-			}
-			if !hasTxParam(fd) {
-				die("%s: %s issues addresses (%s) outside walletdb.Update and has no walletdb.ReadWriteTx/ReadWriteBucket parameter; shape not understood",
-					fset.Position(p.Pos()), name, calleeName(p))
-			}
-			helper = true
-		}
-		if helper {
-			res.Helpers = append(res.Helpers, name)
-		}
-		k := 0
-		for _, u := range upds {
-			if len(u.via) == 0 {
-				continue
-			}
-			k++
-			st := site{Name: name, File: file}
-			if k > 1 {
-				st.Name = fmt.Sprintf("%s#%d", name, k)
-			}
-			for v := range u.via {
-				st.Via = append(st.Via, v)
-			}
-			sort.Strings(st.Via)
-			st.Held, st.Why, st.Unlock = heldAround(fset, fd, u.call, u.fl)
-			res.Sites = append(res.Sites, st)
-		}
-	}
-	sort.Slice(res.Sites, func(i, j int) bool {
-		if res.Sites[i].File != res.Sites[j].File {
-			return res.Sites[i].File < res.Sites[j].File
-		}
-		return res.Sites[i].Name < res.Sites[j].Name
-	})
-	sort.Strings(res.Helpers)
-	if len(res.Sites) == 0 {
-		die("no address-issuing site found in wallet/*.go; the obligation would be vacuous")
-	}
-
-	// informational: wallet functions that advance the index eagerly
-	ext := reaches(wdecls, map[string]bool{"ExtendExternalAddresses": true, "ExtendInternalAddresses": true}, false)
-	for n := range ext {
-		direct := false
-		ast.Inspect(wdecls[n][0].Body, func(m ast.Node) bool {
-			if c, ok := m.(*ast.CallExpr); ok {
-				cn := calleeName(c)
-				if cn == "ExtendExternalAddresses" || cn == "ExtendInternalAddresses" {
-					direct = true
-				}
-			}
-			return true
-		})
-		if direct {
-			res.OtherWriters = append(res.OtherWriters, n)
-		}
-	}
-	sort.Strings(res.OtherWriters)
-
-	b, _ := json.MarshalIndent(res, "", " ")
-	fmt.Println(string(b))
-}
-
-// siteRefusal is raised (panic) when the locking shape of ONE site is not
-// understood; the site is then reported with held = null and the reason, so
-// that the caller can determine the flag some other way.  Shapes that make the
-// site list itself unreliable still end the program (die).
-type siteRefusal struct{ msg string }
-
-func refuse(format string, a ...interface{}) {
-	panic(siteRefusal{fmt.Sprintf(format, a...)})
-}
-
-const notTaken = "newAddrMtx is not taken"
-
-// heldAround decides the flag of one site; nil = shape not understood.
-func heldAround(fset *token.FileSet, fd *ast.FuncDecl, call *ast.CallExpr, fl *ast.FuncLit) (held *bool, why, unlock string) {
-	defer func() {
-		if r := recover(); r != nil {
-			sr, ok := r.(siteRefusal)
-			if !ok {
-				panic(r)
-			}
-			held, why, unlock = nil, sr.msg, ""
-		}
-	}()
-	h, w, u := heldNested(fset, fd, call, fl)
-	if !h && w == notTaken {
-		// no positive evidence of a wrong protocol either: the mutex may be
-		// taken through an alias, a helper or by the callers
-		refuse("%s: no newAddrMtx.Lock() recognised before the Update of %s (taken through an alias, a helper, or by the callers?)",
-			fset.Position(call.Pos()), fd.Name.Name)
-	}
-	return &h, w, u
-}
-
-// heldNested handles an Update that sits inside immediately invoked function
-// literals:  err = func() error { Lock(); defer Unlock(); return walletdb.Update(..) }()
-// The innermost literal is analysed as a scope of its own; if the mutex is not
-// touched there, the invocation of the literal takes the place of the Update
-// call in the enclosing scope.
-func heldNested(fset *token.FileSet, fd *ast.FuncDecl, call ast.Expr, fl *ast.FuncLit) (bool, string, string) {
-	where := fset.Position(call.Pos()).String()
-	// innermost function literal that encloses call
-	var encl *ast.FuncLit
-	ast.Inspect(fd.Body, func(n ast.Node) bool {
-		if l, ok := n.(*ast.FuncLit); ok && l.Pos() < call.Pos() && call.End() <= l.End() && ast.Node(l) != ast.Node(call) {
-			if c, isCall := call.(*ast.CallExpr); !(isCall && c.Fun == ast.Expr(l)) {
-				encl = l // later (deeper) ones overwrite
-			}
-		}
-		return true
-	})
-	if encl == nil {
-		return heldIn(fset, fd, fd.Body, call, fl)
-	}
-	// it must be invoked on the spot, not started as a goroutine, deferred or stored
-	var inv *ast.CallExpr
-	bad := ""
-	ast.Inspect(fd.Body, func(n ast.Node) bool {
-		switch x := n.(type) {
-		case *ast.GoStmt:
-			if x.Call.Fun == ast.Expr(encl) {
-				bad = "started as a goroutine"
-			}
-		case *ast.DeferStmt:
-			if x.Call.Fun == ast.Expr(encl) {
-				bad = "deferred"
-			}
+		switch x := m.(type) {
+		case *ast.FuncLit:
+			return false
+		case *ast.ReturnStmt, *ast.BranchStmt:
+			found = true
 		case *ast.CallExpr:
-			if x.Fun == ast.Expr(encl) {
-				inv = x
+			if id, ok := x.Fun.(*ast.Ident); ok && id.Name == "panic" {
+				found = true
 			}
+		}
+		return !found
+	})
+	return found
+}
+
+type verdict struct {
+	state string // "excl" | "shared" | "bad" | "none" | "unknown"
+	why   string
+}
+
+// hasMutexCall: does node n contain a call of the given kinds on mutex m
+// (into closures if intoLits).
+func (w *world) hasMutexCall(p *pkg, n ast.Node, m string, intoLits bool, kinds ...lockKind) bool {
+	found := false
+	ast.Inspect(n, func(x ast.Node) bool {
+		if found {
+			return false
+		}
+		if _, ok := x.(*ast.FuncLit); ok && !intoLits && x != n {
+			return false
+		}
+		if e, ok := x.(ast.Expr); ok {
+			if k, id, _ := w.mutexCall(p, e); k != kNone && id == m {
+				for _, kk := range kinds {
+					if k == kk {
+						found = true
+					}
+				}
+			}
+		}
+		return !found
+	})
+	return found
+}
+
+func (w *world) where(n ast.Node) string {
+	pos := w.l.fset.Position(n.Pos())
+	rel, err := filepath.Rel(w.l.repo, pos.Filename)
+	if err != nil {
+		rel = pos.Filename
+	}
+	return fmt.Sprintf("%s:%d", filepath.ToSlash(rel), pos.Line)
+}
+
+// around decides whether mutex m is held around expression `call` inside
+// function x: locked before the statement that contains the call and released
+// after it.  txLit is the transaction closure when it is written at this
+// place (Lock/Unlock inside it are evidence of a wrong protocol), else nil.
+func (w *world) around(x *fn, call ast.Expr, txLit *ast.FuncLit, m string) verdict {
+	if !w.hasMutexCall(x.p, x.decl.Body, m, true, kLock, kUnlock, kRLock, kRUnlock) {
+		return verdict{"none", ""} // the function never touches the mutex
+	}
+	// innermost function literal of x that encloses the call (other than the
+	// transaction closure itself): it must be invoked on the spot
+	scope := x.decl.Body
+	var encl *ast.FuncLit
+	ast.Inspect(x.decl.Body, func(n ast.Node) bool {
+		if l, ok := n.(*ast.FuncLit); ok && l != txLit && l.Pos() < call.Pos() && call.End() <= l.End() {
+			encl = l
 		}
 		return true
 	})
-	if inv == nil || bad != "" {
-		if bad == "" {
-			bad = "not invoked where it is written"
+	if encl != nil {
+		var inv *ast.CallExpr
+		bad := ""
+		ast.Inspect(x.decl.Body, func(n ast.Node) bool {
+			switch s := n.(type) {
+			case *ast.GoStmt:
+				if s.Call.Fun == ast.Expr(encl) {
+					bad = "started as a goroutine"
+				}
+			case *ast.DeferStmt:
+				if s.Call.Fun == ast.Expr(encl) {
+					bad = "deferred"
+				}
+			case *ast.CallExpr:
+				if s.Fun == ast.Expr(encl) {
+					inv = s
+				}
+			}
+			return true
+		})
+		if inv == nil || bad != "" {
+			if bad == "" {
+				bad = "not invoked where it is written"
+			}
+			return verdict{"unknown", fmt.Sprintf("%s: the transaction of %s is run inside a function literal that is %s", w.where(call), x.name, bad)}
 		}
-		refuse("%s: the Update call of %s is inside a function literal that is %s; shape not understood", where, fd.Name.Name, bad)
+		v := w.aroundIn(x, encl.Body, call, txLit, m)
+		if v.state == "excl" || v.state == "shared" {
+			v.why += " (inside an immediately invoked function literal that wraps the transaction)"
+			return v
+		}
+		if v.state != "none" {
+			return v
+		}
+		if w.hasMutexCall(x.p, encl, m, true, kLock, kUnlock, kRLock, kRUnlock) {
+			return verdict{"unknown", fmt.Sprintf("%s: %s touches %s inside the function literal that wraps the transaction in a shape that is not understood", w.where(call), x.name, m)}
+		}
+		return w.around(x, inv, encl, m)
 	}
-	if len(inv.Args) != 0 {
-		refuse("%s: the function literal wrapping the Update of %s takes arguments; shape not understood", where, fd.Name.Name)
-	}
-	h, w, u := heldIn(fset, fd, encl.Body, call, fl)
-	if h {
-		return true, w + " (inside an immediately invoked function literal that wraps the Update)", u
-	}
-	if w != notTaken && !containsMutexCall(encl, "Lock", true) && !containsMutexCall(encl, "Unlock", true) {
-		w = notTaken
-	}
-	if w != notTaken {
-		return false, w, u
-	}
-	if containsMutexCall(encl, "Lock", true) || containsMutexCall(encl, "Unlock", true) {
-		return false, w, u
-	}
-	// the literal does not touch the mutex: look at where it is invoked
-	return heldNested(fset, fd, inv, encl)
+	return w.aroundIn(x, scope, call, txLit, m)
 }
 
-// heldIn decides whether newAddrMtx is locked before the statement that
-// contains the Update call and unlocked only after it.
-//
-// It works on one "scope": the statement list of the function body, or of an
-// immediately invoked function literal that wraps the Update (its body runs
-// inline and its deferred calls run when it returns, i.e. after the Update
-// returned).  call is the expression whose evaluation contains the whole
-// transaction (the Update call, or the invocation of the wrapping literal);
-// fl is the closure that runs inside it.
-func heldIn(fset *token.FileSet, fd *ast.FuncDecl, scope *ast.BlockStmt, call ast.Expr, fl *ast.FuncLit) (bool, string, string) {
-	where := fset.Position(call.Pos()).String()
+func (w *world) aroundIn(x *fn, scope *ast.BlockStmt, call ast.Expr, txLit *ast.FuncLit, m string) verdict {
+	p := x.p
+	at := w.where(call)
 	path := pathTo(scope.List, call)
 	if path == nil {
-		refuse("%s: cannot locate the Update call of %s in its statement list", where, fd.Name.Name)
+		return verdict{"unknown", fmt.Sprintf("%s: cannot locate the transaction of %s in its statement list", at, x.name)}
 	}
-	// statements that precede the Update in program order along the path
 	lockLevel, lockIdx := -1, -1
+	shared := false
 	for li, lv := range path {
 		for i := 0; i < lv.idx; i++ {
 			s := lv.list[i]
-			if es, ok := s.(*ast.ExprStmt); ok && isMutexCall(es.X, "Lock") {
-				lockLevel, lockIdx = li, i // the latest one wins
-				continue
+			if es, ok := s.(*ast.ExprStmt); ok {
+				if k, id, _ := w.mutexCall(p, es.X); id == m && (k == kLock || k == kRLock) {
+					lockLevel, lockIdx, shared = li, i, k == kRLock
+					continue
+				}
 			}
-			if containsMutexCall(s, "Lock", true) {
-				refuse("%s: %s takes newAddrMtx inside a nested statement before the Update; shape not understood", where, fd.Name.Name)
+			if w.hasMutexCall(p, s, m, true, kLock, kRLock) {
+				return verdict{"unknown", fmt.Sprintf("%s: %s takes %s inside a nested statement before the transaction", at, x.name, m)}
 			}
 		}
+	}
+	unl, mode := kUnlock, "Lock"
+	if shared {
+		unl, mode = kRUnlock, "RLock"
 	}
 	if lockLevel < 0 {
-		if containsMutexCall(fl, "Lock", true) {
-			return false, "newAddrMtx is taken inside the transaction closure (after Begin)", ""
+		if txLit != nil && w.hasMutexCall(p, txLit, m, true, kLock, kRLock) {
+			return verdict{"bad", fmt.Sprintf("%s: %s is taken inside the transaction closure (after Begin)", at, m)}
 		}
-		// a Lock somewhere else in the function (after the Update, other branch)?
-		if containsMutexCall(fd.Body, "Lock", true) {
-			return false, "newAddrMtx.Lock() does not precede the Update call", ""
+		if w.hasMutexCall(p, scope, m, true, kLock, kRLock) {
+			return verdict{"bad", fmt.Sprintf("%s: %s of %s does not precede the transaction", at, m, x.name)}
 		}
-		return false, notTaken, ""
+		return verdict{"none", ""}
 	}
-	// between the Lock and the Update: a deferred Unlock, and no other Unlock
 	deferred := false
 	for li := lockLevel; li < len(path); li++ {
 		lv := path[li]
@@ -742,126 +1134,573 @@ func heldIn(fset *token.FileSet, fd *ast.FuncDecl, scope *ast.BlockStmt, call as
 		}
 		for i := from; i < lv.idx; i++ {
 			s := lv.list[i]
-			if ds, ok := s.(*ast.DeferStmt); ok && isMutexCall(ds.Call, "Unlock") {
-				deferred = true
-				continue
+			if ds, ok := s.(*ast.DeferStmt); ok {
+				if k, id, _ := w.mutexCall(p, ds.Call); id == m && k == unl {
+					deferred = true
+					continue
+				}
 			}
-			if containsMutexCall(s, "Unlock", true) {
-				refuse("%s: %s releases newAddrMtx between Lock and the Update (conditionally?); shape not understood", where, fd.Name.Name)
+			if w.hasMutexCall(p, s, m, true, kUnlock, kRUnlock) {
+				return verdict{"unknown", fmt.Sprintf("%s: %s releases %s between taking it and the transaction (conditionally?)", at, x.name, m)}
 			}
 		}
 	}
-	if containsMutexCall(fl, "Unlock", true) {
-		return false, "newAddrMtx is released inside the transaction closure", ""
+	if txLit != nil && w.hasMutexCall(p, txLit, m, true, kUnlock, kRUnlock) {
+		return verdict{"bad", fmt.Sprintf("%s: %s is released inside the transaction closure (before commit and commit handlers)", at, m)}
+	}
+	ok := verdict{"excl", ""}
+	if shared {
+		ok.state = "shared"
 	}
 	if deferred {
-		if lockLevel != 0 {
-			// a defer in a nested block still runs at function exit; fine.
-		}
-		return true, "Lock before the Update, deferred Unlock", "defer"
+		ok.why = fmt.Sprintf("%s: %s() before the transaction, deferred release", at, mode)
+		return ok
 	}
-	// explicit Unlock: a later sibling of the statement holding the Update, in
-	// the block where the Lock is, with no jump in between.
 	lv := path[lockLevel]
 	holder := lv.list[lv.idx]
-	if lockLevel != len(path)-1 {
-		// the Update sits deeper than the Lock: the enclosing statement must not jump out
-		if containsJump(holder) {
-			refuse("%s: %s: the statement enclosing the Update may leave the function/loop while newAddrMtx is held; shape not understood", where, fd.Name.Name)
-		}
+	if lockLevel != len(path)-1 && containsJump(holder) {
+		return verdict{"unknown", fmt.Sprintf("%s: %s: the statement enclosing the transaction may leave the function/loop while %s is held", at, x.name, m)}
 	}
 	for i := lv.idx + 1; i < len(lv.list); i++ {
 		s := lv.list[i]
-		if es, ok := s.(*ast.ExprStmt); ok && isMutexCall(es.X, "Unlock") {
-			return true, "Lock before the Update, Unlock after it in the same block", "after"
+		if es, isExpr := s.(*ast.ExprStmt); isExpr {
+			if k, id, _ := w.mutexCall(p, es.X); id == m && k == unl {
+				ok.why = fmt.Sprintf("%s: %s() before the transaction, release after it in the same block", at, mode)
+				return ok
+			}
 		}
-		if containsMutexCall(s, "Unlock", true) {
-			refuse("%s: %s releases newAddrMtx inside a nested statement after the Update; shape not understood", where, fd.Name.Name)
+		if w.hasMutexCall(p, s, m, true, kUnlock, kRUnlock) {
+			return verdict{"unknown", fmt.Sprintf("%s: %s releases %s inside a nested statement after the transaction", at, x.name, m)}
 		}
 		if containsJump(s) {
-			refuse("%s: %s may leave the block between the Update and the Unlock of newAddrMtx; shape not understood", where, fd.Name.Name)
+			return verdict{"unknown", fmt.Sprintf("%s: %s may leave the block between the transaction and the release of %s", at, x.name, m)}
 		}
 	}
-	refuse("%s: %s locks newAddrMtx before the Update but no matching Unlock was found; shape not understood", where, fd.Name.Name)
-	return false, "", ""
+	return verdict{"unknown", fmt.Sprintf("%s: %s takes %s before the transaction but no matching release was found", at, x.name, m)}
 }
 
-// deferredUpdate checks that nextAddresses assigns acctInfo.next{External,
-// Internal}Index only inside the closure registered with tx.OnCommit.
-func deferredUpdate(fd *ast.FuncDecl) (bool, string) {
-	// the closure(s) passed to OnCommit, directly or through a variable
-	closures := map[*ast.FuncLit]bool{}
-	vars := map[string]*ast.FuncLit{}
-	ast.Inspect(fd.Body, func(n ast.Node) bool {
-		if as, ok := n.(*ast.AssignStmt); ok && len(as.Lhs) == 1 && len(as.Rhs) == 1 {
-			if id, ok := as.Lhs[0].(*ast.Ident); ok {
-				if fl, ok := as.Rhs[0].(*ast.FuncLit); ok {
-					vars[id.Name] = fl
-				}
-			}
-		}
-		return true
-	})
-	registered := false
-	ast.Inspect(fd.Body, func(n ast.Node) bool {
-		if c, ok := n.(*ast.CallExpr); ok && calleeName(c) == "OnCommit" && len(c.Args) == 1 {
-			switch a := c.Args[0].(type) {
-			case *ast.FuncLit:
-				closures[a] = true
-				registered = true
-			case *ast.Ident:
-				if fl := vars[a.Name]; fl != nil {
-					closures[fl] = true
-					registered = true
-				}
-			}
-		}
-		return true
-	})
-	isIndexField := func(e ast.Expr) bool {
-		s, ok := e.(*ast.SelectorExpr)
-		return ok && (s.Sel.Name == "nextExternalIndex" || s.Sel.Name == "nextInternalIndex")
+// ---------------------------------------------------------------- sites
+
+type rawSite struct {
+	x      *fn
+	call   *ast.CallExpr
+	lit    *ast.FuncLit // transaction closure if written here
+	runner string
+	via    map[string]bool
+	class  string
+	// the runner helpers the transaction function passes through below this call
+	down []frame
+}
+
+type frame struct {
+	x    *fn
+	call *ast.CallExpr
+}
+
+func main() {
+	if len(os.Args) != 2 {
+		die("usage: extract-c09 <repo>")
 	}
-	writes, outside := 0, 0
-	var visit func(n ast.Node, inCommit bool)
-	visit = func(n ast.Node, inCommit bool) {
-		ast.Inspect(n, func(m ast.Node) bool {
-			if m == nil || m == n {
-				return true
+	repo, err := filepath.Abs(os.Args[1])
+	if err != nil {
+		die("%v", err)
+	}
+	l := loadRepo(repo)
+	w := buildWorld(l)
+	w.wdb = l.mod + "/walletdb"
+	if _, ok := l.pkgs[w.wdb]; !ok {
+		die("package %s not found", w.wdb)
+	}
+	w.findManager()
+	res := result{Module: l.mod, TypeErrors: l.nerr}
+	for ip := range l.pkgs {
+		res.Packages = append(res.Packages, strings.TrimPrefix(strings.TrimPrefix(ip, l.mod), "/"))
+	}
+	sort.Strings(res.Packages)
+
+	prims, fields := w.primitives()
+	res.CounterFields = fields
+	primName := func(x *fn) string { return x.decl.Name.Name }
+	res.Deferred = true
+	var eagerIssuers []string
+	nIssue := 0
+	for x, pr := range prims {
+		if pr.returnsAddrs {
+			res.Issue = append(res.Issue, primName(x))
+			nIssue++
+			if pr.eager {
+				res.Deferred = false
+				eagerIssuers = append(eagerIssuers, primName(x))
 			}
-			if fl, ok := m.(*ast.FuncLit); ok {
-				visit(fl.Body, inCommit || closures[fl])
-				return false
+		} else {
+			res.Extend = append(res.Extend, primName(x))
+		}
+	}
+	sort.Strings(res.Issue)
+	sort.Strings(res.Extend)
+	sort.Strings(eagerIssuers)
+	switch {
+	case nIssue == 0:
+		die("no exported ScopedKeyManager method both returns managed addresses and advances %v; the model of C09 does not apply", fields)
+	case res.Deferred:
+		res.DeferredWhy = fmt.Sprintf("every assignment to %s reachable from %s is inside a closure registered with OnCommit",
+			strings.Join(fields, "/"), strings.Join(res.Issue, ", "))
+	default:
+		res.DeferredWhy = fmt.Sprintf("%s can assign %s outside an OnCommit handler (eager update)",
+			strings.Join(eagerIssuers, ", "), strings.Join(fields, "/"))
+	}
+	// account creation (informational): exported ScopedKeyManager methods New*Account*
+	acct := map[*fn]bool{}
+	for _, x := range w.order {
+		n := x.decl.Name.Name
+		if x.p == w.mgrPkg && x.decl.Recv != nil && ast.IsExported(n) && strings.HasPrefix(n, "New") && strings.Contains(n, "Account") {
+			if strings.Contains(x.name, "ScopedKeyManager") {
+				acct[x] = true
+				res.Account = append(res.Account, n)
 			}
-			switch x := m.(type) {
-			case *ast.AssignStmt:
-				for _, l := range x.Lhs {
-					if isIndexField(l) {
-						writes++
-						if !inCommit {
-							outside++
+		}
+	}
+	sort.Strings(res.Account)
+
+	// which primitives does each declaration reach
+	reachPrims := func(roots []*fn) (map[string]bool, string, bool) {
+		via := map[string]bool{}
+		class := ""
+		isAcct := false
+		for y := range w.reach(roots) {
+			if pr := prims[y]; pr != nil {
+				via[primName(y)] = true
+				if pr.returnsAddrs {
+					class = "issue"
+				} else if class == "" {
+					class = "extend"
+				}
+			}
+			if acct[y] {
+				isAcct = true
+			}
+		}
+		return via, class, isAcct
+	}
+
+	helpers := w.runnerHelpers()
+
+	// every runner call in the repository whose transaction function is
+	// written (or named) at the call
+	var sites []*rawSite
+	acctSites := map[string]bool{}
+	for _, x := range w.order {
+		if strings.HasPrefix(x.p.path, w.wdb) {
+			continue
+		}
+		// local variables holding closures
+		vars := map[types.Object]*ast.FuncLit{}
+		ast.Inspect(x.decl.Body, func(n ast.Node) bool {
+			if as, ok := n.(*ast.AssignStmt); ok && len(as.Lhs) == len(as.Rhs) {
+				for i := range as.Lhs {
+					if id, ok := as.Lhs[i].(*ast.Ident); ok {
+						if fl, ok := as.Rhs[i].(*ast.FuncLit); ok {
+							o := x.p.info.Defs[id]
+							if o == nil {
+								o = x.p.info.Uses[id]
+							}
+							if o != nil {
+								vars[o] = fl
+							}
 						}
 					}
 				}
-			case *ast.IncDecStmt:
-				if isIndexField(x.X) {
-					writes++
-					if !inCommit {
-						outside++
+			}
+			return true
+		})
+		sig := x.obj.Type().(*types.Signature)
+		ast.Inspect(x.decl.Body, func(n ast.Node) bool {
+			c, ok := n.(*ast.CallExpr)
+			if !ok {
+				return true
+			}
+			ai, rname := w.runnerArg(x.p, c, helpers)
+			if ai < 0 || ai >= len(c.Args) {
+				return true
+			}
+			arg := ast.Unparen(c.Args[ai])
+			var lit *ast.FuncLit
+			var roots []*fn
+			switch a := arg.(type) {
+			case *ast.FuncLit:
+				lit = a
+				roots = w.refsIn(x.p, a.Body)
+			case *ast.Ident:
+				o := x.p.info.Uses[a]
+				if fl := vars[o]; fl != nil {
+					roots = w.refsIn(x.p, fl.Body)
+				} else if f, ok := o.(*types.Func); ok && w.fns[f] != nil {
+					roots = []*fn{w.fns[f]}
+				} else if v, ok := o.(*types.Var); ok {
+					// the function's own transaction-function parameter: x is
+					// a runner helper, its callers are the sites
+					if pi, isH := helpers[x]; isH && sig.Params().At(pi) == v {
+						return true
+					}
+					roots = nil
+					if via, _, _ := reachPrims([]*fn{x}); len(via) > 0 {
+						die("%s: %s runs a write transaction whose function is the value of %s; what it can reach is not known", w.where(c), x.name, a.Name)
+					}
+				}
+			default:
+				roots = w.refsIn(x.p, arg)
+			}
+			via, class, isAcct := reachPrims(roots)
+			if isAcct {
+				acctSites[x.name] = true
+			}
+			if len(via) == 0 {
+				return true
+			}
+			sites = append(sites, &rawSite{x: x, call: c, lit: lit, runner: rname, via: via, class: class})
+			return true
+		})
+		// a write transaction opened by hand
+		ast.Inspect(x.decl.Body, func(n ast.Node) bool {
+			c, ok := n.(*ast.CallExpr)
+			if !ok {
+				return true
+			}
+			if s, ok := c.Fun.(*ast.SelectorExpr); ok && s.Sel.Name == "BeginReadWriteTx" {
+				if via, _, _ := reachPrims(w.refsIn(x.p, x.decl.Body)); len(via) > 0 {
+					die("%s: %s opens a write transaction by hand (BeginReadWriteTx) and can reach %v; Begin/Commit pairs are not understood",
+						w.where(c), x.name, keys(via))
+				}
+			}
+			return true
+		})
+	}
+	for n := range acctSites {
+		res.AccountSites = append(res.AccountSites, n)
+	}
+	sort.Strings(res.AccountSites)
+	if len(sites) == 0 {
+		die("no database transaction reaching %v found in %d packages; the obligation would be vacuous", append(res.Issue, res.Extend...), len(res.Packages))
+	}
+
+	// exported functions that issue on a transaction/bucket handed in by the caller
+	for _, x := range w.order {
+		if x.p == w.mgrPkg || !ast.IsExported(x.decl.Name.Name) {
+			continue
+		}
+		sig := x.obj.Type().(*types.Signature)
+		takesTx := false
+		for i := 0; i < sig.Params().Len(); i++ {
+			if nt, ok := sig.Params().At(i).Type().(*types.Named); ok && nt.Obj().Pkg() != nil && nt.Obj().Pkg().Path() == w.wdb &&
+				(nt.Obj().Name() == "ReadWriteTx" || nt.Obj().Name() == "ReadWriteBucket") {
+				takesTx = true
+			}
+		}
+		if takesTx {
+			if via, _, _ := reachPrims([]*fn{x}); len(via) > 0 {
+				res.OpenHelpers = append(res.OpenHelpers, x.name)
+			}
+		}
+	}
+	sort.Strings(res.OpenHelpers)
+
+	// ---- the address mutex: the struct-field mutex locked around most sites
+	votes := map[string]int{}
+	mtype := map[string]string{}
+	for _, s := range sites {
+		seen := map[string]bool{}
+		ast.Inspect(s.x.decl.Body, func(n ast.Node) bool {
+			if e, ok := n.(ast.Expr); ok {
+				if k, id, mt := w.mutexCall(s.x.p, e); (k == kLock || k == kRLock) && !strings.HasPrefix(id, "local:") && !seen[id] {
+					if v := w.around(s.x, s.call, s.lit, id); v.state == "excl" || v.state == "shared" {
+						seen[id] = true
+						votes[id]++
+						mtype[id] = mt
 					}
 				}
 			}
 			return true
 		})
 	}
-	visit(fd.Body, false)
-	switch {
-	case !registered:
-		return false, "nextAddresses registers no OnCommit handler"
-	case writes == 0:
-		return false, "nextAddresses never assigns the in-memory next index"
-	case outside > 0:
-		return false, fmt.Sprintf("%d of %d assignments to the in-memory next index are outside the OnCommit handler (eager update)", outside, writes)
+	best := ""
+	for id, n := range votes {
+		if best == "" || n > votes[best] || (n == votes[best] && id < best) {
+			best = id
+		}
 	}
-	return true, fmt.Sprintf("all %d assignments to the in-memory next index are inside the OnCommit handler", writes)
+	if best == "" {
+		// no site holds any field mutex around its transaction: look for one
+		// that is at least taken somewhere in a site function
+		for _, s := range sites {
+			ast.Inspect(s.x.decl.Body, func(n ast.Node) bool {
+				if e, ok := n.(ast.Expr); ok {
+					if k, id, mt := w.mutexCall(s.x.p, e); k != kNone && !strings.HasPrefix(id, "local:") {
+						votes[id]++
+						mtype[id] = mt
+					}
+				}
+				return true
+			})
+		}
+		for id, n := range votes {
+			if best == "" || n > votes[best] || (n == votes[best] && id < best) {
+				best = id
+			}
+		}
+	}
+	res.Mutex, res.MutexType = best, mtype[best]
+
+	mutexPkg := ""
+	if best != "" {
+		if i := strings.LastIndex(best[:strings.LastIndex(best, ".")], "."); i >= 0 {
+			mutexPkg = best[:i]
+		}
+	}
+	// functions that mention the address mutex field at all; among them the
+	// self-contained ones (they lock AND unlock it themselves: calling one
+	// does not leave the mutex held) and the others (lock helpers, accessors
+	// returning the mutex, ...): calling one of those may be how the mutex is
+	// taken
+	field := w.fieldOf[best]
+	touchesDirect := map[*fn]bool{}
+	helperish := map[*fn]bool{}
+	localMutexUse := map[*fn]bool{}
+	for _, x := range w.order {
+		mentions := 0
+		if field != nil {
+			ast.Inspect(x.decl.Body, func(n ast.Node) bool {
+				if se, ok := n.(*ast.SelectorExpr); ok {
+					if sel := x.p.info.Selections[se]; sel != nil && sel.Obj() == types.Object(field) {
+						mentions++
+					}
+				}
+				return true
+			})
+		}
+		locks, unlocks := 0, 0
+		ast.Inspect(x.decl.Body, func(n ast.Node) bool {
+			if e, ok := n.(ast.Expr); ok {
+				if k, id, _ := w.mutexCall(x.p, e); k != kNone {
+					if best != "" && id == best {
+						if k == kLock || k == kRLock {
+							locks++
+						} else {
+							unlocks++
+						}
+					} else if strings.HasPrefix(id, "local:") && (mutexPkg == "" || x.p.rel == mutexPkg) {
+						// only code of the package that owns the (unexported)
+						// mutex field can hold it under another name
+						localMutexUse[x] = true
+					}
+				}
+			}
+			return true
+		})
+		if mentions > 0 {
+			touchesDirect[x] = true
+			if !(locks > 0 && unlocks > 0 && mentions == locks+unlocks) {
+				helperish[x] = true
+			}
+		}
+	}
+	// does x deal with the mutex: itself, or through a lock helper it refers to
+	touches := func(x *fn) bool {
+		if touchesDirect[x] || localMutexUse[x] {
+			return true
+		}
+		for _, y := range w.refs[x] {
+			if helperish[y] {
+				return true
+			}
+			for _, z := range w.refs[y] {
+				if helperish[z] {
+					return true
+				}
+			}
+		}
+		return false
+	}
+
+	// decide walks up the callers while the function itself does not touch the mutex
+	var decide func(x *fn, call ast.Expr, lit *ast.FuncLit, depth int, visiting map[*fn]bool) (verdict, []string)
+	decide = func(x *fn, call ast.Expr, lit *ast.FuncLit, depth int, visiting map[*fn]bool) (verdict, []string) {
+		if best == "" {
+			return verdict{"none", ""}, nil
+		}
+		v := w.around(x, call, lit, best)
+		fr := []string{x.name}
+		if v.state != "none" {
+			return v, fr
+		}
+		if touchesDirect[x] {
+			return verdict{"unknown", fmt.Sprintf("%s: %s uses %s but not around this transaction in a shape that is understood", w.where(call), x.name, best)}, fr
+		}
+		if localMutexUse[x] {
+			return verdict{"unknown", fmt.Sprintf("%s: %s locks a mutex it obtained through a local variable (alias, helper, one of several mutexes?); which one is not known statically", w.where(call), x.name)}, fr
+		}
+		if touches(x) {
+			return verdict{"unknown", fmt.Sprintf("%s: %s refers to a function that deals with %s without releasing it itself (a lock helper?); whether it is held around this transaction is not known statically", w.where(call), x.name, best)}, fr
+		}
+		if depth >= 4 || visiting[x] {
+			return verdict{"none", ""}, fr
+		}
+		cs := w.callers[x]
+		if len(cs) == 0 {
+			return verdict{"none", ""}, fr
+		}
+		visiting[x] = true
+		defer delete(visiting, x)
+		all := verdict{"", ""}
+		for _, cr := range cs {
+			if cr.call == nil {
+				// taken as a value: called from somewhere we do not see
+				if touches(cr.from) {
+					return verdict{"unknown", fmt.Sprintf("%s is used as a function value in %s, which deals with %s", x.name, cr.from.name, best)}, fr
+				}
+				cv := verdict{"none", ""}
+				if all.state == "" || all.state == "excl" || all.state == "shared" {
+					all = cv
+				}
+				continue
+			}
+			cv, cfr := decide(cr.from, cr.call, nil, depth+1, visiting)
+			fr = append(fr, cfr...)
+			switch {
+			case cv.state == "bad" || cv.state == "unknown":
+				return cv, fr
+			case all.state == "":
+				all = cv
+			case cv.state == "none":
+				all = cv
+			case cv.state == "shared" && all.state == "excl":
+				all = cv
+			}
+		}
+		if all.state == "excl" || all.state == "shared" {
+			all.why += fmt.Sprintf(" (in every caller of %s)", x.name)
+		}
+		return all, fr
+	}
+
+	sort.Slice(sites, func(i, j int) bool {
+		a, b := sites[i], sites[j]
+		if a.x.name != b.x.name {
+			return a.x.name < b.x.name
+		}
+		return a.call.Pos() < b.call.Pos()
+	})
+	count := map[string]int{}
+	for _, s := range sites {
+		count[s.x.name]++
+		st := site{Name: s.x.name, Pkg: s.x.p.rel, Class: s.class, Runner: s.runner, Mutex: best}
+		if count[s.x.name] > 1 {
+			st.Name = fmt.Sprintf("%s#%d", s.x.name, count[s.x.name])
+		}
+		pos := l.fset.Position(s.call.Pos())
+		rel, _ := filepath.Rel(repo, pos.Filename)
+		st.File, st.Line = filepath.ToSlash(rel), pos.Line
+		st.Via = keys(s.via)
+		// the transaction function may pass through runner helpers: the lock
+		// may be taken there, around the inner runner call
+		v, frames := decide(s.x, s.call, s.lit, 0, map[*fn]bool{})
+		if v.state == "none" {
+			for _, t := range w.targets(s.x.p, s.call.Fun) {
+				hv, hfr := w.helperHolds(t, helpers, best, 0)
+				if hv.state != "none" {
+					v, frames = hv, append(frames, hfr...)
+					break
+				}
+			}
+		}
+		st.Frames = frames
+		st.Touches = touches(s.x)
+		t, f := true, false
+		switch v.state {
+		case "excl":
+			st.Held, st.Why = &t, v.why
+		case "shared":
+			st.Held, st.Shared = &f, true
+			st.Why = v.why + ": a read lock does not exclude another request holding a read lock"
+		case "bad":
+			st.Held, st.Why = &f, v.why
+		case "unknown":
+			st.Held, st.Why = nil, v.why
+		default: // none
+			switch {
+			case best == "":
+				st.Held, st.Why = nil, fmt.Sprintf("%s: no mutex that is a struct field is held around any transaction reaching %v; no candidate for the address mutex", w.where(s.call), st.Via)
+			case mutexPkg != "" && s.x.p.rel != mutexPkg && !touchesAnyCaller(w, s.x, touches):
+				st.Held, st.Why = &f, fmt.Sprintf("%s: %s is in package %s; the address mutex %s is an unexported field of package %s and no function on a path to this transaction takes it",
+					w.where(s.call), s.x.name, s.x.p.rel, best, mutexPkg)
+			case !touches(s.x) && !touchesAnyCaller(w, s.x, touches):
+				st.Held, st.Why = &f, fmt.Sprintf("%s: neither %s, nor anything it calls, nor any of its callers takes %s", w.where(s.call), s.x.name, best)
+			default:
+				st.Held, st.Why = nil, fmt.Sprintf("%s: no Lock of %s recognised around the transaction of %s (taken through an alias, a helper, or by some callers only?)", w.where(s.call), best, s.x.name)
+			}
+		}
+		res.Sites = append(res.Sites, st)
+	}
+	b, _ := json.MarshalIndent(res, "", " ")
+	fmt.Println(string(b))
+}
+
+// helperHolds: the runner helper t takes the mutex around its own runner call.
+func (w *world) helperHolds(t *fn, helpers map[*fn]int, m string, depth int) (verdict, []string) {
+	if _, ok := helpers[t]; !ok || depth > 3 {
+		return verdict{"none", ""}, nil
+	}
+	out := verdict{"none", ""}
+	var frames []string
+	ast.Inspect(t.decl.Body, func(n ast.Node) bool {
+		c, ok := n.(*ast.CallExpr)
+		if !ok || out.state != "none" {
+			return true
+		}
+		if ai, _ := w.runnerArg(t.p, c, helpers); ai >= 0 {
+			v := w.around(t, c, nil, m)
+			frames = append(frames, t.name)
+			if v.state != "none" {
+				out = v
+				if v.state == "excl" || v.state == "shared" {
+					out.why += fmt.Sprintf(" (in the helper %s that runs the transaction)", t.name)
+				}
+				return false
+			}
+			for _, t2 := range w.targets(t.p, c.Fun) {
+				if v2, f2 := w.helperHolds(t2, helpers, m, depth+1); v2.state != "none" {
+					out, frames = v2, append(frames, f2...)
+					return false
+				}
+			}
+		}
+		return true
+	})
+	return out, frames
+}
+
+func touchesAnyCaller(w *world, x *fn, touches func(*fn) bool) bool {
+	seen := map[*fn]bool{}
+	var up func(y *fn) bool
+	up = func(y *fn) bool {
+		if seen[y] {
+			return false
+		}
+		seen[y] = true
+		for _, cr := range w.callers[y] {
+			if touches(cr.from) || up(cr.from) {
+				return true
+			}
+		}
+		return false
+	}
+	return up(x)
+}
+
+func keys(m map[string]bool) []string {
+	var out []string
+	for k := range m {
+		out = append(out, k)
+	}
+	sort.Strings(out)
+	return out
 }
